@@ -262,6 +262,7 @@ type FnRun struct {
 	rootOf map[string]string
 	lockCands []string
 	closedWorld map[string]bool
+	axiomsUsed []string
 }
 
 func (r *FnRun) fresh(prefix, sort string) string {
